@@ -1,0 +1,97 @@
+//! Verification hooks (cargo feature `verif-hooks`, off by default).
+//!
+//! Nothing in this module is compiled unless the feature is on, and every
+//! call site in the engine is itself guarded by
+//! `#[cfg(feature = "verif-hooks")]`. The hooks only *observe* (path
+//! counters), *widen timing windows* (seeded delays placed between — never
+//! inside — critical sections), or let a harness shadow a size threshold so
+//! that small generated inputs reach code paths gated on large ones.
+
+use parking_lot::Mutex;
+use std::collections::BTreeMap;
+use std::sync::atomic::{AtomicU64, Ordering};
+
+static COUNTERS: Mutex<BTreeMap<&'static str, u64>> = Mutex::new(BTreeMap::new());
+static KNOBS: Mutex<BTreeMap<String, u64>> = Mutex::new(BTreeMap::new());
+static DELAY_SEED: AtomicU64 = AtomicU64::new(0);
+static DELAY_MAX_US: AtomicU64 = AtomicU64::new(0);
+
+/// Count one entry into a named code path.
+pub fn hit(name: &'static str) {
+    *COUNTERS.lock().entry(name).or_insert(0) += 1;
+}
+
+/// Snapshot of all path counters.
+pub fn counters() -> Vec<(String, u64)> {
+    COUNTERS
+        .lock()
+        .iter()
+        .map(|(k, v)| (k.to_string(), *v))
+        .collect()
+}
+
+/// Value of one counter (0 when never hit).
+pub fn counter(name: &str) -> u64 {
+    COUNTERS.lock().get(name).copied().unwrap_or(0)
+}
+
+/// Reset all path counters.
+pub fn reset_counters() {
+    COUNTERS.lock().clear();
+}
+
+/// Set or clear a harness knob at run time.
+pub fn set_knob(name: &str, value: Option<u64>) {
+    let mut k = KNOBS.lock();
+    match value {
+        Some(v) => {
+            k.insert(name.to_string(), v);
+        }
+        None => {
+            k.remove(name);
+        }
+    }
+}
+
+/// A harness knob: the run-time table first, then env `QE_VERIF_<NAME>`.
+pub fn knob(name: &str) -> Option<u64> {
+    if let Some(v) = KNOBS.lock().get(name) {
+        return Some(*v);
+    }
+    std::env::var(format!("QE_VERIF_{}", name.to_uppercase()))
+        .ok()
+        .and_then(|s| s.parse().ok())
+}
+
+/// Enable seeded delay injection (seed 0 disables it).
+pub fn set_delays(seed: u64, max_us: u64) {
+    DELAY_MAX_US.store(max_us, Ordering::SeqCst);
+    DELAY_SEED.store(seed, Ordering::SeqCst);
+}
+
+/// A delay point: yields or sleeps a pseudo-random time when delays are on.
+/// Call sites sit between critical sections, never inside a lock.
+pub fn delay(_point: &'static str) {
+    let mut s = DELAY_SEED.load(Ordering::Relaxed);
+    if s == 0 {
+        if let Some(seed) = knob("delay_seed") {
+            let max = knob("delay_max_us").unwrap_or(200);
+            set_delays(seed.max(1), max);
+            s = seed.max(1);
+        } else {
+            return;
+        }
+    }
+    // xorshift64*; racing updates only add entropy.
+    s ^= s >> 12;
+    s ^= s << 25;
+    s ^= s >> 27;
+    DELAY_SEED.store(s.max(1), Ordering::Relaxed);
+    let r = s.wrapping_mul(0x2545F4914F6CDD1D) >> 33;
+    let max = DELAY_MAX_US.load(Ordering::Relaxed).max(1);
+    match r % 4 {
+        0 => {}
+        1 => std::thread::yield_now(),
+        _ => std::thread::sleep(std::time::Duration::from_micros(r % max)),
+    }
+}
